@@ -259,7 +259,7 @@ PROPS = {
         level_note='Bounds are stated in coverage.bounded.bound. Two known findings (names of a second rule on a shared pattern; int filter digit limit).',
     ),
     'C06': dict(
-        level='other', contracts=['body_read', 'C06'], frames=[],
+        level='other', contracts=['body_read', 'C06'], frames=['headers_regex'],
         technique='bounded run-time contract check of compositionality: MultipartMarkup.parse fed with every division of small-scope byte strings '
                   'and of generated well-formed bodies (and their prefixes) must equal the one-piece parse; VC: _body_read feeds every part in order',
         explanation='BOUNDED small-scope exhaustive splits; proved: _body_read hands each part to markup.parse in order; the three post-delimiter '
@@ -268,8 +268,9 @@ PROPS = {
                    'post-delimiter eaters, match_tail (soundness, completeness, minimality of the reported partial-delimiter position) together with '
                    'the index table MatchTail.__init__ builds for it, the dispatcher HeadersEaeter.eat, the section emission with absolute '
                    'offsets of iter_markup (relative to the eaters), and the feeding obligation of _body_read. The two searching eaters '
-                   '(_eat_data / _eat_start_boundary: block-wise delimiter search; _eat_headers: regular expression) are bounded only, so '
-                   'the level stays `other`. _eat_start_boundary is under contract relative to _eat_data.',
+                   '_eat_start_boundary (relative to _eat_data) and _eat_headers (relative to a specification of its regular expression that '
+                   'is validated against the real pattern by enumeration on a bounded scope) are under contract as well; the block-wise '
+                   'delimiter search _eat_data is bounded only, so the level stays `other`.',
         level_note='Bounds are stated in coverage.bounded.bound.',
     ),
     'C07': dict(
